@@ -18,6 +18,7 @@ import os
 import shutil
 import struct
 import sys
+import zlib
 
 from vlib import boot, engine
 
@@ -87,6 +88,9 @@ class Transport:
             self.world.closing.append(self.wid)
 
 
+Insight = collections.namedtuple('Insight', ['cpu', 'summary'])
+
+
 class World:
     def __init__(self, desc, targets, rev='rev0'):
         self.desc = desc
@@ -113,6 +117,13 @@ class World:
         farm.clear()
         farm.ARCHIVE = False
         farm._agency[0] = None
+        # placement advice: with no cloud provider configured every unit must still go to the cluster crew,
+        # whatever its metric history says (auto placement) -- a third of the units are advised `cloud`
+        farm.insights.clear()
+        for t in list(targets) + [ALL]:
+            for a in engine.alg_names(desc):
+                if zlib.crc32(f'{t}.{a}'.encode()) % 3 == 0:
+                    farm.insights[f'{t}.{a}'] = Insight(0, dawgie.Distribution.cloud)
         schedule.que = []
         schedule.per = []
         schedule.booted.clear()
@@ -218,7 +229,14 @@ class World:
         w = self.workers[wid]
         if w['transport'].closed or not w['connected']:
             return
-        w['hand'].dataReceived(data)
+        try:
+            w['hand'].dataReceived(data)
+        except Exception as ex:  # pylint: disable=broad-except
+            # what the reactor does with an exception escaping dataReceived: log it, drop the connection
+            self.obs.setdefault('raised', []).append(type(ex).__name__)
+            w['connected'] = False
+            w['transport'].closed = True
+            w['hand'].connectionLost(None)
 
     def ev_register(self, rev=None, wid=None):
         rev = dawgie.context.git_rev if rev is None else rev
@@ -264,6 +282,24 @@ class World:
                 w['transport'].closed = True
                 w['hand'].connectionLost(None)
         self.settle()
+
+    def ev_tick_fault(self, k, auto_workers=8):
+        '''a dispatch pass in which the (k+1)-th call of rerunid() raises, as the code expects the database to do'''
+        orig = farm.rerunid
+        calls = [0]
+
+        def rerunid(job):
+            calls[0] += 1
+            if calls[0] > k:
+                raise RuntimeError('database is not answering')
+            return orig(job)
+
+        farm.rerunid = rerunid
+        try:
+            self.ev_tick(auto_workers)
+        finally:
+            farm.rerunid = orig
+        self.obs['faulted'] = calls[0] > k
 
     def ev_reply(self, alg, t, out, new, old=None):
         cands = [u for u in self.inflight if u['alg'] == alg and u['t'] == t and (old is None or u['stale'] == old)]
@@ -327,6 +363,8 @@ class World:
             'que': [j.tag for j in schedule.que],
             'cluster': [self.msg_view(m) for m in farm._cluster],
             'jobs': [j.tag for j in farm._jobs],
+            # released by next_job_batch but no task message made yet (left in farm._jobs by a pass that raised)
+            'held': {k: (sorted(n.get('do')) if any(j is n for j in farm._jobs) else []) for k, n in nodes.items()},
             'busy': sorted(farm._busy),
             'idle': len(farm._workers),
             'inflight': [{'alg': u['alg'], 't': u['t'], 'run': u['run'], 'msgid': u['msgid'], 'w': u['w'], 'stale': u['stale']} for u in self.inflight],
@@ -385,7 +423,7 @@ def prog_view(desc):
 
 
 def new_obs():
-    return {'put': [], 'written': [], 'chron': [], 'drawn': [], 'told': [], 'reply': [], 'wid': 0, 'write_after_close': 0}
+    return {'put': [], 'written': [], 'chron': [], 'drawn': [], 'told': [], 'reply': [], 'wid': 0, 'write_after_close': 0, 'raised': [], 'faulted': False}
 
 
 def run_job(job):
@@ -424,6 +462,8 @@ def run_job(job):
                 w.ev_run(e['S'], e['T'])
             elif ev == 'Tick':
                 w.ev_tick(e.get('auto', 8))
+            elif ev == 'TickFault':
+                w.ev_tick_fault(e.get('k', 0), e.get('auto', 8))
             elif ev == 'Reply':
                 ok = w.ev_reply(e['alg'], e['t'], e['out'], e.get('new', []), e.get('old'))
             elif ev == 'Reload':
